@@ -123,6 +123,8 @@ def cases(draw):
     else:
         for _ in range(6):
             add("eos", draw(st.binary(max_size=12)))
+        add("eos-newline", draw(st.binary(max_size=6)) + b"\n")
+        add("eos-newline", b"\n")
     inputs.append(("empty", b"", 0))
     return {"fam": fam, "cg": cg, "inputs": inputs, "mode": mode}
 
@@ -175,6 +177,8 @@ def check_input(ctx, live, fam, cg, label, raw, mode):
 
 def run_case(ctx, c):
     fam, cg = c["fam"], c["cg"]
+    if c["mode"] == "eos":
+        re.purge()      # any program may overflow or purge re's cache: re.compile(b"$") is then a NEW object, still read-to-end
     live = decl.open_live(ctx, fam, cg)
     if live is None:
         return
